@@ -28,6 +28,8 @@ struct Unk {
     name: String,
     ty: Ty,
     ann: Option<Type>,
+    /// extension constructor whose argument this unknown is ("" if none)
+    hint: &'static str,
 }
 
 /// how an unknown sits inside an attribute value
@@ -76,7 +78,7 @@ fn ann_for(r: &mut Rng, ty: Ty) -> Type {
         Ty::Bool => Type::Bool,
         Ty::Long => Type::Long,
         Ty::Str => Type::String,
-        Ty::Entity => Type::Entity { ty: EntityType::from(gen::name(r.pick(gen::TYPES))) },
+        Ty::Entity => Type::Entity { ty: EntityType::from(gen::name(*r.pick(gen::TYPES))) },
         Ty::SetLong | Ty::SetEntity | Ty::SetStr => Type::Set,
         Ty::Record => Type::Record,
         Ty::Decimal => e("decimal"),
@@ -94,7 +96,7 @@ fn new_unk(r: &mut Rng, unks: &mut Vec<Unk>, ty: Ty, allow_ann: bool) -> usize {
         }
     }
     let ann = if allow_ann && r.chance(50) { Some(ann_for(r, ty)) } else { None };
-    unks.push(Unk { name: format!("u{}", unks.len()), ty, ann });
+    unks.push(Unk { name: format!("u{}", unks.len()), ty, ann, hint: "" });
     unks.len() - 1
 }
 
@@ -112,8 +114,12 @@ fn unk_attr(r: &mut Rng, unks: &mut Vec<Unk>, ty: Ty) -> AttrSpec {
             AttrSpec::Unk { u: new_unk(r, unks, et, true), wrap: 2, extra: Some(gen::gen_rexpr(r, et, 0)), ctor: "" }
         }
         Ty::Record if r.chance(50) => AttrSpec::Unk { u: new_unk(r, unks, Ty::Long, true), wrap: 3, extra: None, ctor: "" },
-        Ty::Decimal if r.chance(30) => AttrSpec::Unk { u: new_unk(r, unks, Ty::Str, true), wrap: 4, extra: None, ctor: "decimal" },
-        Ty::Duration if r.chance(30) => AttrSpec::Unk { u: new_unk(r, unks, Ty::Str, true), wrap: 4, extra: None, ctor: "duration" },
+        Ty::Decimal | Ty::Duration if r.chance(30) => {
+            let ctor = if ty == Ty::Decimal { "decimal" } else { "duration" };
+            let ann = if r.chance(50) { Some(Type::String) } else { None };
+            unks.push(Unk { name: format!("u{}", unks.len()), ty: Ty::Str, ann, hint: ctor });
+            AttrSpec::Unk { u: unks.len() - 1, wrap: 4, extra: None, ctor }
+        }
         _ => plain(r, unks, ty),
     }
 }
@@ -148,6 +154,9 @@ fn gen_value_of(r: &mut Rng, ty: Ty) -> Value {
 
 /// a value of the declared kind of the unknown
 fn gen_sigma_value(r: &mut Rng, u: &Unk) -> Value {
+    if !u.hint.is_empty() && r.chance(93) {
+        return Value::from(if u.hint == "decimal" { *r.pick(gen::DECIMALS_OK) } else { *r.pick(gen::DURATIONS_OK) });
+    }
     match &u.ann {
         Some(Type::Entity { ty }) => Value::from(gen::mk_uid(&ty.to_string(), gen::EIDS[r.below(4)])),
         Some(_) => {
@@ -337,10 +346,10 @@ impl Case {
         v
     }
 
-    fn gen_sigma(&self, r: &mut Rng) -> (Sigma, Vec<(String, Value)>) {
+    fn gen_sigma(&self, r: &mut Rng, discovered: &[EntityUID]) -> (Sigma, Vec<(String, Value)>) {
         let mut m: Sigma = HashMap::new();
         let mut model: Vec<(String, Value)> = Vec::new();
-        let mut put = |m: &mut Sigma, model: &mut Vec<(String, Value)>, k: &str, v: Value| {
+        let put = |m: &mut Sigma, model: &mut Vec<(String, Value)>, k: &str, v: Value| {
             m.insert(k.into(), v.clone());
             model.push((k.to_string(), v));
         };
@@ -373,7 +382,11 @@ impl Case {
             put(&mut m, &mut model, &u.name, v);
         }
         if self.partial {
-            for u in self.candidate_uids() {
+            let mut cands = self.candidate_uids();
+            for u in discovered {
+                if !cands.contains(u) { cands.push(u.clone()); }
+            }
+            for u in cands {
                 let eid: &str = u.eid().as_ref();
                 m.insert(u.to_string().into(), Value::from(u.clone()));
                 model.push((format!("{}::\"{}\"", u.entity_type(), eid), Value::from(u.clone())));
@@ -587,14 +600,24 @@ pub fn one_case(r: &mut Rng, g: &mut ExprGen, out: &mut Out, k_subst: usize) {
         out.propfail("must_be_determining not a subset of may_be_determining", &desc, &obs);
     }
     let store_a = c.store(None, true, false);
+    // unknowns created by the partial store for missing entities (named by the uid): substituted by themselves
+    let mut discovered: Vec<EntityUID> = Vec::new();
+    for (e, _) in pr.residual_permits.values().chain(pr.residual_forbids.values()) {
+        for u in e.unknowns() {
+            if let Ok(uid) = u.name.parse::<EntityUID>() {
+                if !discovered.contains(&uid) { discovered.push(uid); }
+            }
+        }
+    }
     for si in 0..k_subst {
-        let (sigma, sigma_model) = c.gen_sigma(r);
+        let (sigma, sigma_model) = c.gen_sigma(r, &discovered);
         let ssx = subst_sx(&sigma_model);
         let fresh = c.fresh_request(&sigma).and_then(|q| c.store(Some(&sigma), true, false).map(|s| (q, s)));
         let (fq, fstore) = match fresh {
             Ok(x) => x,
             Err(e) => {
                 out.count("fresh_unbuildable");
+                out.count(&format!("fresh_unbuildable_{}", e.chars().take(7).collect::<String>()));
                 // the substituted request/store does not exist (e.g. an extension constructor fails on the
                 // substituted string): reauthorize must not produce a response for the context case; model diff only
                 let _ = e;
